@@ -507,6 +507,7 @@ impl TQuery {
         }
         s
     }
+    #[allow(dead_code)]
     pub fn has_limit(&self) -> bool {
         fn rel(r: &TRel) -> bool {
             match r {
